@@ -86,6 +86,10 @@ func balCases(tier string) []balCase {
 	for _, st := range strats {
 		cs = append(cs, balCase{kind: "sweep", strat: st})
 	}
+	// subscription lists as sequences (a topic may be named twice), 2 members x 2 topics, lists of length 1-3
+	for _, st := range strats {
+		cs = append(cs, balCase{kind: "duplists", strat: st})
+	}
 	// sticky, generation conflicts: a member that missed a rebalance still claims (with an older
 	// generation) partitions another member owns now, under every subscription pattern of 3 members x 2 topics
 	cs = append(cs, balCase{kind: "conflict", strat: "sticky", m: 3, t: 2})
@@ -224,6 +228,9 @@ func planWithWatchdog(strat sarama.BalanceStrategy, members map[string]sarama.Co
 }
 
 var errHang = fmt.Errorf("hang")
+
+// balDupTopics: random groups may name a topic twice in one member's subscription list (C08 only).
+var balDupTopics bool
 
 // balCycles counts bal.cycle hook events (sticky reassignment loop cut by its
 // repetition guard); the balance engine plans one input at a time.
@@ -600,6 +607,7 @@ func (e *balanceEngine) Run(prop, tier string, seed int64, idx int) proto.Rec {
 	c := cs[idx]
 	rng := rand.New(rand.NewSource(proto.SubSeed(seed, idx, "balance")))
 	r := &balRun{prop: prop, seen: map[string]bool{}, paths: map[string]bool{}, obs: map[string]int64{}}
+	balDupTopics = prop == "C08"
 	switch c.kind {
 	case "exh":
 		e.exhaustive(r, c, rng)
@@ -623,6 +631,39 @@ func (e *balanceEngine) Run(prop, tier string, seed int64, idx int) proto.Rec {
 		e.step(r, c, rng)
 	case "conflict":
 		e.conflict(r)
+	case "duplists":
+		if prop != "C08" {
+			break // fairness is stated over subscription sets
+		}
+		var lists [][]string
+		names := []string{"a", "bb"}
+		for n := 1; n <= 3; n++ {
+			for code := 0; code < 1<<uint(n); code++ {
+				var l []string
+				for i := 0; i < n; i++ {
+					l = append(l, names[(code>>uint(i))&1])
+				}
+				lists = append(lists, l)
+			}
+		}
+		for _, l0 := range lists {
+			for _, l1 := range lists {
+				for pa := 1; pa <= 3; pa++ {
+					for pb := 1; pb <= 3; pb++ {
+						in := &balInput{strat: c.strat, members: map[string]sarama.ConsumerGroupMemberMetadata{}, topics: map[string][]int32{}, prior: "dup-lists"}
+						in.members["m0"] = sarama.ConsumerGroupMemberMetadata{Topics: append([]string(nil), l0...)}
+						in.members["m1"] = sarama.ConsumerGroupMemberMetadata{Topics: append([]string(nil), l1...)}
+						in.topics["a"], in.topics["bb"] = seqParts(pa), seqParts(pb)
+						restrictToSubscribed(in)
+						plan, ok := r.plan(in)
+						if !ok {
+							continue
+						}
+						r.check(in, plan)
+					}
+				}
+			}
+		}
 	case "sweep":
 		maxM, maxP := 40, 150
 		if c.strat == "sticky" {
@@ -886,6 +927,11 @@ func randomGroup(rng *rand.Rand, strat string) *balInput {
 		}
 		ts = dedup(ts)
 		rng.Shuffle(len(ts), func(a, b int) { ts[a], ts[b] = ts[b], ts[a] })
+		if rng.Intn(12) == 0 && balDupTopics {
+			// a subscription list naming a topic twice (Consume(ctx, []string{"a", "a"}, h) is not rejected anywhere):
+			// the plan must still be valid (C08); fairness (C13) is stated over subscription sets
+			ts = append(ts, ts[rng.Intn(len(ts))])
+		}
 		id := fmt.Sprintf("m%d", i)
 		switch rng.Intn(3) {
 		case 1:
